@@ -47,6 +47,8 @@ ASSUMPTIONS = [
     "IANA zone rules come from the stdlib zoneinfo module and the system zone database (the expected offset of a zone-"
     "aware input is utcoffset() of the original stdlib object)",
     "str()/repr() output is recorded but never judged",
+    "the `_generated` metadata field is never given a falsy epoch number (0, 0.0, -0.0): the record constructor documents "
+    "a falsy `_generated` argument as 'not given' and stores the current time; ordinary timestamp fields do get epoch 0",
 ]
 SHARDS = {"quick": 8, "thorough": 16}
 BUDGET_S = {"quick": 150, "thorough": 900}
@@ -97,7 +99,7 @@ def _set_tz(tz):
 
 def generate(ctx):
     idx = 0
-    reps = ctx.scale(28, 540)
+    reps = ctx.scale(120, 1500)
     for rep in range(reps):
         for fmt in FORMATS:
             for tz in PROC_TZ:
@@ -105,7 +107,7 @@ def generate(ctx):
                     yield {"k": "ts", "fmt": fmt, "tz": tz, "s": subseed("c13", ctx.seed, "ts", fmt, tz, rep)}
                 idx += 1
     # environment groups: every part re-runs the baseline environment (index 0) and compares the others against it
-    groups = ctx.scale(2, 10)
+    groups = ctx.scale(4, 20)
     parts = [[1, 2, 3, 4], [5, 6, 7, 8], [9, 10, 11]]
     idx = 0
     for g in range(groups):
@@ -127,27 +129,27 @@ def classify_field(spec, got, exp):
     return None
 
 
-def check_field_obs(ctx, spec, got, where, aware=True):
+def check_field_obs(ctx, spec, got, where, env=None):
     """`got` = observation of the field value built from `spec` (None = unset).  -> reference observation or None."""
     exp = model.expected(spec)
     if got is None:
-        ctx.violation(None, "%s: timestamp field is unset although a value was given" % where, detail={"spec": spec, "expected": exp})
+        ctx.violation(None, "%s: timestamp field is unset although a value was given" % where, detail={"spec": spec, "expected": exp, "env": env})
         return None
     if got[7] is None:
-        ctx.violation(None, "%s: timestamp field value is naive (no UTC offset)" % where, detail={"spec": spec, "observed": got})
+        ctx.violation(None, "%s: timestamp field value is naive (no UTC offset)" % where, detail={"spec": spec, "observed": got, "env": env})
         return None
     if got not in exp:
         ctx.violation(classify_field(spec, got, exp), "%s: field value differs from the input's wall clock / UTC offset" % where,
-                      detail={"spec": spec, "input": _render(spec), "observed": got, "expected_any_of": exp, "tzkind": model.tzkind(spec)})
+                      detail={"spec": spec, "input": _render(spec), "observed": got, "expected_any_of": exp, "tzkind": model.tzkind(spec), "env": env})
         return None
     return got
 
 
-def check_read_obs(ctx, fmt, ref, got, where, spec=None):
+def check_read_obs(ctx, fmt, ref, got, where, spec=None, env=None):
     """`ref` = observation of the value that was written, `got` = observation of the value read back."""
     if got is None or got[7] is None:
         ctx.violation(None, "%s: value read back from %s is %s" % (where, fmt, "unset" if got is None else "naive"),
-                      detail={"written": ref, "read": got, "spec": spec})
+                      detail={"written": ref, "read": got, "spec": spec, "env": env})
         return False
     if fmt == "avro":
         ok = got[7] == 0 and model.utc_us(got) == model.utc_us(ref)
@@ -156,7 +158,7 @@ def check_read_obs(ctx, fmt, ref, got, where, spec=None):
         ok = got == ref
         what = "has a different wall clock or UTC offset"
     if not ok:
-        ctx.violation(None, "%s: timestamp read back from %s %s" % (where, fmt, what), detail={"written": ref, "read": got, "spec": spec})
+        ctx.violation(None, "%s: timestamp read back from %s %s" % (where, fmt, what), detail={"written": ref, "read": got, "spec": spec, "env": env})
     return ok
 
 
@@ -195,6 +197,8 @@ def execute(ctx, case):
         gsp = None
         if i % 2:
             gsp = gspecs[i]
+            if gsp["form"].startswith("epoch") and not model.build(gsp, ft):
+                gsp = {"form": "epoch_int", "n": 1}  # a falsy `_generated` argument means "not given" (default = now)
             kw["_generated"] = model.build(gsp, ft)
         try:
             r = T(**kw)
@@ -363,14 +367,14 @@ def check_worker(ctx, case, envidx, out, specs):
     envname = "FLOW_RECORD_TZ=%s TZ=%s" % ENVS[envidx]
     n = len(specs)
     if out["errors"]:
-        ctx.violation(None, "worker under %s: the library raised on valid timestamps (%s)" % (envname, out["errors"][0][0]),
+        ctx.violation(None, "worker: the library raised on valid timestamps (%s)" % out["errors"][0][0],
                       detail={"errors": out["errors"][:5], "env": ENVS[envidx]})
     if not out.get("field_is_datetime", True):
         ctx.violation(None, "worker under %s: a timestamp field holds a value that is not of the datetime field type" % envname, detail={})
     refs, refs2 = [], []
     for i, sp in enumerate(specs):
-        refs.append(check_field_obs(ctx, sp, out["field"][i], "field under " + envname))
-        refs2.append(check_field_obs(ctx, specs[(i * 7 + 3) % n], out["field2"][i], "field under " + envname))
+        refs.append(check_field_obs(ctx, sp, out["field"][i], "field (worker)", envname))
+        refs2.append(check_field_obs(ctx, specs[(i * 7 + 3) % n], out["field2"][i], "field (worker)", envname))
         ctx.event("env_field_values_checked", 2)
     avro_rows = set(out["avro_rows"])
     for fmt in FORMATS:
@@ -384,10 +388,10 @@ def check_worker(ctx, case, envidx, out, specs):
             continue
         for i, o1, o2, og in rows:
             if refs[i] is not None:
-                check_read_obs(ctx, fmt, refs[i], o1, "ts under " + envname, specs[i])
+                check_read_obs(ctx, fmt, refs[i], o1, "ts (worker)", specs[i], envname)
             if refs2[i] is not None:
-                check_read_obs(ctx, fmt, refs2[i], o2, "ts2 under " + envname, specs[(i * 7 + 3) % n])
-            check_read_obs(ctx, fmt, [2024, 1, 2, 3, 4, 5, 678, 0], og, "_generated under " + envname)
+                check_read_obs(ctx, fmt, refs2[i], o2, "ts2 (worker)", specs[(i * 7 + 3) % n], envname)
+            check_read_obs(ctx, fmt, [2024, 1, 2, 3, 4, 5, 678, 0], og, "_generated (worker)", None, envname)
             ctx.event("env_stored_values_checked", 3)
             ctx.cell("env", "FLOW_RECORD_TZ=%s" % ENVS[envidx][0], "TZ=%s" % ENVS[envidx][1], fmt)
         for j, obs_list in out["read_list"].get(fmt, []):
@@ -397,7 +401,7 @@ def check_worker(ctx, case, envidx, out, specs):
                 continue
             for ref, o, sp in zip(want_refs, obs_list, specs[j:j + 5]):
                 if ref is not None:
-                    check_read_obs(ctx, fmt, ref, o, "datetime[] element under " + envname, sp)
+                    check_read_obs(ctx, fmt, ref, o, "datetime[] element (worker)", sp, envname)
                     ctx.event("env_stored_list_elements_checked")
 
 
